@@ -103,6 +103,16 @@ def _outcome(world, info, parent, args):
         raise RuntimeError("B@" + p)
     if o == "null":
         return None
+    if o == "lazy-err":
+        # a lazily evaluated list result whose iteration fails with the library's resolver error
+        items = parent.get(info.field_definition.name) if isinstance(parent, dict) else None
+
+        def gen():
+            for it in (items or [])[:1]:
+                yield it
+            raise ResolverError("L@" + p)
+
+        return gen()
     if isinstance(parent, dict):
         v = parent.get(info.field_definition.name)
     else:
@@ -176,9 +186,18 @@ def schema_for(custom, asyncio_styles, sdl="full"):
             else:
                 fn = _mk_async(coord) if (style == "async" and asyncio_styles) else _mk_sync(coord)
             s.register_resolver(t, f, fn)
+        for tname in ("Node", "U"):
+            if tname in s.types:
+                s.types[tname].resolve_type = _resolve_type
         s.validate()
         _SCHEMAS[key] = s
     return s
+
+
+def _resolve_type(value, ctx, info):
+    if getattr(ctx, "overrides", None) and ctx.overrides.get(pstr(info.path)) == "type-err":
+        raise ResolverError("T@" + pstr(info.path))
+    return value.get("__typename__") if isinstance(value, dict) else None
 
 
 class RecInstr(Instrumentation):
